@@ -292,3 +292,23 @@ PROPS["C18"] = dict(
                                                               "cmn_roundtrips_checked": 50, "normal_utterances_afterwards": 50}),
     assumptions=[A_SAN, A_GEN],
 )
+
+PROPS["C16"] = dict(
+    title="Dictionary additions take effect and never disturb existing entries", level="exploration",
+    technique="runtime reference-model monitor (word table) over generated histories of decoder_add_word / lookup / use, ground truth for existing words from the harness' own parse of dict.txt, under ASan/UBSan",
+    level_text="exploration: each case is a history of 5-400 operations on a fresh decoder (every 40th case 4400 operations, past the 4096-entry "
+               "reallocation step): new words (1 to 40 phones, hostile spellings, messy whitespace in the phone string), numbered alternates of "
+               "added and of pre-existing words, duplicates, alternates without base, unknown phones, empty word, empty / blank pronunciation, "
+               "with update on and off; after each: return value (dense fresh id or < 0), dictionary size, lookup of the word, base id and "
+               "alternate chain; periodically every added word and 120 random pre-existing words (+ forward/the/a) are re-verified (id, "
+               "spelling, pronunciation vs dict.txt, base, chain); added words are used at once in alignment text / JSGF on the bundled "
+               "recording and must be reported under the base spelling.",
+    level_note="a spelling of the form x(y) is an alternate of x by the dictionary's own convention; such generated spellings are expected to be "
+               "rejected when x is unknown",
+    rule="one case = one history; non-trivial = at least one successful addition; distinct = (case, additions, rejections).",
+    stages=[dict(harness="h_dict", flavor="asan", quick=96, thorough=1200, leaks=True), dict(harness="h_dict", flavor="fast", quick=160, thorough=3000, name="h_dict_fast")],
+    floor=dict(min_evaluations=80, min_distinct=40, counters={"successful_additions": 500, "alternates_added": 50, "rejections_duplicate": 20, "rejections_empty_word": 10,
+                                                             "rejections_empty_pron": 10, "rejections_unknown_phone": 10, "utterances_with_added_words": 20,
+                                                             "histories_past_reallocation_step": 1, "one_phone_words_added": 10, "existing_word_checks": 2000}),
+    assumptions=[A_SAN, A_GEN],
+)
